@@ -1,6 +1,9 @@
 pub mod opcmp;
 pub mod c05;
 pub mod c06;
+pub mod c07;
+pub mod c08;
+pub mod c09;
 #[cfg(feature = "jit")]
 pub mod pair;
 #[cfg(feature = "jit")]
@@ -13,6 +16,9 @@ pub fn registry() -> Vec<Monitor> {
   let mut v = vec![
     Monitor { name: "c05", run: c05::run, resumable: true, on_crash: c05::on_crash },
     Monitor { name: "c06", run: c06::run, resumable: true, on_crash: c06::on_crash },
+    Monitor { name: "c07", run: c07::run, resumable: true, on_crash: c07::on_crash },
+    Monitor { name: "c08", run: c08::run, resumable: true, on_crash: c08::on_crash },
+    Monitor { name: "c09", run: c09::run, resumable: true, on_crash: c09::on_crash },
   ];
   #[cfg(feature = "jit")]
   {
